@@ -1,6 +1,7 @@
 import Complgen.Model.Hex
 import Complgen.Model.Quote
 import Complgen.Model.Pipeline
+import Complgen.Model.Parse
 import Complgen.Cert.Search
 import Complgen.Cert.Canon
 import Complgen.Cert.Det
@@ -140,6 +141,13 @@ def handle (line : String) : String :=
       let f := fun (l : List String) => " ".intercalate (sortStrings (l.map Hex.encode))
       s!"ok {f (Spec.undefinedNames sh g)} | {f (Spec.unusedNames g)} | {f (Spec.unusedSpecNames sh g)}"
     | _, _ => "bad-op"
+  | ["parse", h] =>
+    match Hex.decode h with
+    | some src =>
+      match Parse.parse src.toList with
+      | .ok g => "ok " ++ Grammar.text g
+      | .error sp => s!"err {sp.text}"
+    | none => "bad-op"
   | ["labels"] =>
     "ok " ++ " ".intercalate (Gen.diagLabels.map fun (k, v) => s!"{Hex.encode k}:{Hex.encode v}")
   | ["canon", a] =>
